@@ -48,7 +48,9 @@ VersionSound(sv, T) ==
 PStructureSound(st) == \A i \in 1..Len(st.hist) : VersionSound(st.hist[i], st.tbl)
 
 \* C04 / C18: nothing stored that was not written; every stored entry is a durable record
-StoredEntries(st) == UNION {TEff(st.tbl[t]) : t \in AllIds(Latest(st).lv)}
+\* a separated value ("I", pointer into a blob file) is the same write as an inline one
+Norm(e) == IF e.t = "I" THEN [e EXCEPT !.t = "V"] ELSE e
+StoredEntries(st) == {Norm(e) : e \in UNION {TEff(st.tbl[t]) : t \in AllIds(Latest(st).lv)}}
 PNoInvention(st, a) == StoredEntries(st) \subseteq Durable(a)
 
 \* C04: the newest durable record of a live key is still stored
